@@ -21,7 +21,7 @@ import shutil
 import sys
 
 from . import model, remote
-from .core import Chooser, Group, HarnessError, RemoteTaskError, Scheduler, SimInterrupt
+from .core import Chooser, Group, HarnessError, RemoteTaskError, Scheduler, SimInterrupt, SimSoftInterrupt
 from .install import MODS, check_audit
 from .seams import WORLD, SimClock, run_atexit
 
@@ -282,6 +282,7 @@ class Exec:
         cache = self.plan["ref_cache"]
         self.ref = {bool(int(k)): v for k, v in cache.items()}
         self.invalid = set()
+        self.soft_hit = set()  # (phase, group, file, subject): a single-call fault fired in that evaluate
         for r in self.ref.values():
             self.invalid |= set(r["invalid"])
 
@@ -675,6 +676,22 @@ class Exec:
                 fp = (model.array_fingerprint(pred), model.array_fingerprint(ref))
                 t.ctx["subject"] = subj
                 s.point("op.eval", "")
+                if not plan["inputs"][ik].get("poison") and self._arm_soft(t, op, mode):
+                    # a script that guards each call (or a notebook cell interrupted by hand):
+                    # this one call fails at a file operation, the interpreter lives on
+                    try:
+                        a.evaluate(pred, ref, subj)
+                        self.note("soft_fault_not_reached")
+                    except SimInterrupt:
+                        raise
+                    except (SimSoftInterrupt, OSError) as e:
+                        if "injected" not in str(e):
+                            raise
+                        self.soft_hit.add((self.phase_idx, t.group.name, fname, subj))
+                        self.note("soft_fault_raised_in_evaluate")
+                    finally:
+                        t.soft = None
+                    continue
                 if plan["inputs"][ik].get("poison"):
                     # user code that guards each call: a malformed subject fails, the others go on
                     try:
@@ -691,16 +708,24 @@ class Exec:
             elif kind == "stat":
                 before = len(self.complete_subjects(fname))
                 s.point("op.stat", "")
+                armed = self._arm_soft(t, op, mode)
                 try:
                     st = a.make_statistic()
                 except SimInterrupt:
                     raise
+                except (SimSoftInterrupt, OSError) as e:
+                    if not armed or "injected" not in str(e):
+                        raise
+                    self.note("soft_fault_raised_in_make_statistic")
+                    continue
                 except Exception as e:  # noqa: BLE001
                     if before >= 1:
                         self.v("stat_complete_rows", f"make_statistic raised {type(e).__name__}: {str(e)[:200]} with {before} complete rows in the file")
                     else:
                         self.note("stat_on_header_only_raised")
                     continue
+                finally:
+                    t.soft = None
                 after = self.complete_subjects(fname)
                 try:
                     self._check_stat(st, fname, before, after)
@@ -708,6 +733,20 @@ class Exec:
                     raise
                 except Exception as e:  # noqa: BLE001 - the statistics object itself misbehaves
                     self.v("stat_complete_rows", f"inspecting the statistics object raised {type(e).__name__}: {str(e)[:160]}")
+        return True
+
+    def _arm_soft(self, t, op, mode):
+        """Arm the single-call fault an operation of the plan carries (threads of one interpreter
+        only: the fault is raised in the calling thread itself)."""
+        extra = op[-1] if isinstance(op[-1], dict) else None
+        soft = extra.get("soft") if extra else None
+        if not soft:
+            return False
+        if mode != "threads" or self.remote is not None:
+            self.note("soft_fault_not_armed_worker_process")
+            return False
+        t.soft = [int(soft[0]), ("openat",), str(soft[1])]
+        t.soft_fire = None
         return True
 
     def _check_stat(self, st, fname, before, after):
@@ -958,6 +997,15 @@ class Exec:
                         per[(sess["aggs"][op[1]], op[2])] += 1
             for (fname, subj), nsub in per.items():
                 n = sum(1 for e in self.evals if e[0] == pi and e[1] == g.name and e[2] == subj and e[3] == fname)
+                softened = (pi, g.name, fname, subj) in self.soft_hit
+                if softened and subj not in pre[fname]:
+                    # the failed call may or may not have evaluated before it failed; a repeated
+                    # submission of the name may or may not have been accepted - never twice
+                    if n > 1:
+                        self.v("unfinished_redone", f"phase {pi}: {subj!r} evaluated {n}x in one session (one of its calls failed at a file operation)")
+                    else:
+                        self.note("soft_faulted_subject_judged_relaxed")
+                    continue
                 if subj in pre[fname]:
                     if n != 0:
                         self.v("finished_skipped", f"phase {pi}: {subj!r} had a complete row in {fname} at session start but was evaluated {n}x")
@@ -1009,6 +1057,9 @@ class Exec:
                         for ops in sess["tasks"]:
                             for op in ops:
                                 if op[0] == "eval" and sess["aggs"][op[1]] == fname and op[3] not in self.invalid:
+                                    if (pi, sess["group"], fname, op[2]) in self.soft_hit:
+                                        # this session's call for the subject failed: the session does not owe the row
+                                        continue
                                     must.add(op[2])
             if f.get("initial") == "rows":
                 must |= {s for s, ik in f.get("initial_subjects", []) if ik in ref["rows"]}
@@ -1504,6 +1555,7 @@ class Exec:
             "taken": list(self.chooser.taken), "fired": dict(self.fired), "faults_fired": list(self.faults_fired),
             "states": sorted(self.states), "stats": dict(WORLD.stats), "nontrivial": self.nontrivial,
             "sim_time": WORLD.clock.covered if WORLD.clock else 0.0,
+            "soft_hit": sorted(list(x) for x in self.soft_hit),
         }
 
     def merge(self, r):
@@ -1524,6 +1576,7 @@ class Exec:
             self.stats_acc[k] = self.stats_acc.get(k, 0) + n
         self.nontrivial = self.nontrivial or r.get("nontrivial", False)
         self.sim_time += r.get("sim_time", 0.0)
+        self.soft_hit.update(tuple(x) for x in r.get("soft_hit", []))
 
 
 def _guard(fn):
